@@ -44,5 +44,17 @@ Emit == Done =>
                          place |-> sc.place, proper |-> sc.proper, via |-> sc.via, base |-> sc.base, alt |-> Alt(sc), pre |-> pre,
                          fields |-> [f \in Fields |-> [cps |-> sc.fields[f].cps, nwide |-> sc.fields[f].nwide,
                                                        width |-> sc.fields[f].width, bytes |-> BytesOf(sc.fields[f])]],
-                         want |-> out, vclass |-> VClass(sc.ver), desc |-> Desc \o PlaceDesc, listed |-> Listed]))
+                         want |-> out, vclass |-> VClass(sc.ver), desc |-> Desc \o PlaceDesc, listed |-> Listed,
+                         ret |-> ret, retalt |-> Handed(sc, Alt(sc))]))
+\* a list of received events: the items and the indices (1-based) of those that come back, in order
+ItemDesc(it) == IF it.kind \in {"soft", "hard"} THEN it.kind \o ":" \o it.field ELSE it.kind
+RECURSIVE BatchDesc(_)
+BatchDesc(b) == IF b = <<>> THEN "" ELSE ItemDesc(Head(b)) \o ";" \o BatchDesc(Tail(b))
+BatchEmit == BatchDone =>
+          PrintT(ToJson([fam |-> Family, ver |-> sc.ver, path |-> "list", vclass |-> VClass(sc.ver),
+                         items |-> [i \in 1..Len(sc.batch) |->
+                                      [kind |-> sc.batch[i].kind, field |-> sc.batch[i].field, want |-> ItemJudgement(sc.batch[i]),
+                                       fields |-> [f \in Fields |-> [cps |-> sc.batch[i].fields[f].cps, nwide |-> sc.batch[i].fields[f].nwide,
+                                                                     width |-> sc.batch[i].fields[f].width, bytes |-> BytesOf(sc.batch[i].fields[f])]]]],
+                         kept |-> keptidx, desc |-> "list:" \o BatchDesc(sc.batch)]))
 =============================================================================
